@@ -6,6 +6,13 @@ pid = sys.argv[1]
 n = int(sys.argv[2]) if len(sys.argv) > 2 else 2
 p = [json.loads(l) for l in open(os.path.join(VERIF, "properties.jsonl")) if json.loads(l)["id"] == pid][0]
 wt, out = "/tmp/mut/%s" % pid, "/tmp/mut/%s-out" % pid
+import glob
+prior = []
+for mp in sorted(glob.glob(os.path.join(VERIF, "seeded", pid + "-m*", "meta.json"))):
+    m = json.load(open(mp))
+    prior.append("- " + (m.get("summary") or "")[:200] + " (" + ", ".join(m.get("files_touched", [])) + ")")
+prior_txt = ("\nCHANGES ALREADY PROPOSED BY OTHERS (do not repeat these or close variants of them; look at other functions, other mechanisms of the property):\n" + "\n".join(prior) + "\n") if prior and len(sys.argv) > 3 else ""
+wt, out = ("/tmp/mut2/%s" % pid, "/tmp/mut2/%s-out" % pid) if len(sys.argv) > 3 else (wt, out)
 print(f"""You are helping to evaluate how sensitive a (hidden) verification suite is. You get one semantic property of the Scheme interpreter chibi-scheme (C + Scheme libraries) and your own scratch git worktree of its repository. Your job: produce {n} DIFFERENT realistic source changes, each of which BREAKS the property, yet still compiles and still passes the repository's existing test suite.
 
 THE PROPERTY ({pid}): {p['title']}
@@ -14,6 +21,7 @@ Quantified over: {p['quantifier']['text']}
 Why the existing tests cannot settle it: {p['why_tests_cant']}
 Code it is anchored in: {', '.join(p['anchors']['files'])}
 
+{prior_txt}
 YOUR WORKTREE: {wt} (a git worktree; work ONLY there and in {out}, which you create for results). Do NOT read, list or touch /repo or /verif or any other directory of this machine besides your worktree, {out} and system tools: you must work from the property text and the source alone.
 
 Build + test suite (run from the worktree; the whole suite must still pass with each of your changes applied):
